@@ -97,6 +97,11 @@ std::string dump_state();
 // accesses that go through intercepted libc functions (memcpy/memcmp inside std::string) must be bracketed by this guard.
 // Keep the scope tight: never around calls into the code under test.
 struct TsanIgnore { TsanIgnore(); ~TsanIgnore(); };
+// Harness threads learn about each other's progress through the simulator (block/yield), which the race detector does not see. Where the harness orders two accesses
+// to an object of the code under test that way - "the completion handler has run, so now I may close the device" - it tells the detector what a real application's
+// own synchronisation would have told it: hb_release(tag) on the signalling side, hb_acquire(tag) on the waiting side. No-ops outside TSan builds.
+void hb_release(const void *tag);
+void hb_acquire(const void *tag);
 
 // scheduling primitives for harness code
 void yield();
